@@ -42,6 +42,7 @@ var c12FixedData = func() *univ.Node {
 		"objs", univ.IfaceSlice(obj("name", univ.Str("web-1"), "tags", univ.IfaceSlice(univ.Str("a"), univ.Str("b")), "port", univ.Int(80)), obj("name", univ.Str("db-2"), "tags", univ.IfaceSlice(univ.Str("c")), "port", univ.Int(5432))),
 		"st", univ.Struct(univ.StructOf(univ.Field{Name: "Name", Tag: `bexpr:"name" alt:"altname"`, Type: univ.TString}, univ.Field{Name: "Hidden", Tag: `bexpr:"-"`, Type: univ.TString}, univ.Field{Name: "L", Type: univ.SliceOf(univ.TInt)}), univ.Str("go"), univ.Str("h"), univ.Slice(univ.SliceOf(univ.TInt), univ.Int(4), univ.Int(5))),
 		"w", univ.Struct(univ.StructOf(univ.Field{Name: "Wrapped", Type: univ.TString}), univ.Str("inner")),
+		"deep", univ.IfaceSlice(obj("b", univ.IfaceSlice(obj("c", univ.IfaceSlice(obj("d", univ.IfaceSlice(obj("k", univ.Int(1), "e", univ.IfaceSlice(obj("f", univ.IfaceSlice(univ.Int(3)))))))))))),
 	)
 }()
 
@@ -53,6 +54,10 @@ var c12FixedExprs = []string{
 	`any objs as o { o.name matches "^web" and (any o.tags as t { t == "b" }) }`, `all objs as o { o.port != 0 and (all o.tags as t { t not matches "^z" }) }`, `any objs as i, o { any o.tags as j, t { t == "c" and j == 0 and i == 1 } }`,
 	`any ls as x { x matches "^be" }`, `all ls as x { x not matches "^z" and x matches "a$" }`, `any objs as o { o.zz == 1 }`, `zz == 1`, `m.zz == 1`, `m.zz != 1`, `any m.zz as x { x == 1 }`, `not (s == "alpha") or (n == 5 and f != 2)`,
 	`st.name == go`, `st.L.1 == 5`, `any st.L as v { v == 4 }`, `st.Hidden == h`, `(any objs as o { o.name == "db-2" }) and (any l as v { v == 1 })`, `all l as v { any l as w { w == v } }`,
+	// value aliases four to six quantifiers deep: the rewritten paths have 9..13 parts; absent last keys
+	`any deep as x { any x.b as y { any y.c as z { any z.d as w { w.missing is empty } } } }`, `all deep as x { all x.b as y { all y.c as z { all z.d as w { w.missing != 1 and w.k == 1 } } } }`,
+	`any deep as x { any x.b as y { any y.c as z { any z.d as w { any w.e as u { u.nope is empty and (any u.f as t { t == 3 }) } } } } }`, `any deep as x { any x.b as y { any y.c as z { any z.d as w { w.missing == 1 } } } }`,
+	`any deep as _, x { any x.b as _, y { any y.c as _, z { any z.d as i, w { w.gone not in l or i == 0 } } } }`,
 }
 
 func c12Pool(r *rand.Rand, n int) []c12Item {
@@ -422,7 +427,10 @@ func c12ManyPatterns(c *mon.Ctx) {
 				name := fmt.Sprintf("p%d", j)
 				other := fmt.Sprintf("p%d", j+1)
 				var text string
-				switch (k + gi) % 4 {
+				uname := []string{"é", "ü", "ñ", "ω", "ж", "日", "ǩ", "ö", "ç"}[(j+gi)%9] + fmt.Sprintf("%d", j)
+				switch (k + gi) % 5 {
+				case 4:
+					text = fmt.Sprintf(`"/u/%s" == 1 and "/u/%sx" != 1`, uname, uname)
 				case 0:
 					text = fmt.Sprintf(`x matches "^%s$"`, name)
 				case 1:
@@ -438,8 +446,8 @@ func c12ManyPatterns(c *mon.Ctx) {
 					return
 				}
 				created[gi]++
-				yes := map[string]interface{}{"x": name, "m": map[string]interface{}{name: 1, other: 2}, "l": []interface{}{"q", name}}
-				no := map[string]interface{}{"x": other, "m": map[string]interface{}{name: 2, other: 1}, "l": []interface{}{"q", other}}
+				yes := map[string]interface{}{"x": name, "m": map[string]interface{}{name: 1, other: 2}, "l": []interface{}{"q", name}, "u": map[string]interface{}{uname: 1, uname + "x": 2}}
+				no := map[string]interface{}{"x": other, "m": map[string]interface{}{name: 2, other: 1}, "l": []interface{}{"q", other}, "u": map[string]interface{}{uname: 2, uname + "x": 2}}
 				if o := evaluate(ev, yes); o.Class() != "T" {
 					fails[gi] = fmt.Sprintf("%s on x=%s: %s (want T)", text, name, o.String())
 					return
